@@ -2,6 +2,8 @@
 
 package valid
 
+import "strings"
+
 // C15: custom messages replace the default text verbatim (with the label
 // chosen by CJK detection), and GetOnlyExplainErr extracts exactly the
 // explanation parts of labelled clauses.
@@ -52,6 +54,15 @@ var vC15Rules = []vC15Rule{
 	{"dir", "dir", "/etc/passwd"},
 	{"file_missing", "file", "/verif-no-such-path"},
 	{"dir_missing", "dir", "/verif-no-such-path"},
+	{"re_alt", "re='^(cat|dog)$'", "abc"},
+	{"re_alt2", "re='a|b|c$'", "xyz"},
+}
+
+// default wording of rules whose argument may itself contain the message delimiter
+var vC15Default = map[string]string{
+	"re_alt":  "regex match is failed, pattern: ^(cat|dog)$",
+	"re_alt2": "regex match is failed, pattern: a|b|c$",
+	"re":      "regex match is failed, pattern: ^[0-9]+$",
 }
 
 func vC15Msg(name string, max int) string {
@@ -77,6 +88,9 @@ func vC15One(i int, max int) {
 			s := err.Error()
 			pre := "input \"" + r.witness + "\", " + ExplainEn + " "
 			vAssert(len(s) > len(pre) && s[:len(pre)] == pre, "C15 "+r.name+": default wording carries the English label")
+			if d, ok := vC15Default[r.name]; ok {
+				vAssert(s == pre+d, "C15 "+r.name+": default wording when no message is given")
+			}
 		}
 		vReach("default")
 		return
@@ -374,6 +388,74 @@ func H_C15_label_from_message() {
 	case 3:
 		_, _, m := ParseValidNameKV("include=(中)|" + msg)
 		vAssert(m == vC14Label(msg), "C15 label: ParseValidNameKV decides by the message")
+	}
+	vReach("end")
+}
+
+func H_C15_rule_re_alt()   { vC15One(38, 4) }
+func H_C15T_rule_re_alt()  { vC15One(38, 6) }
+func H_C15_rule_re_alt2()  { vC15One(39, 4) }
+func H_C15T_rule_re_alt2() { vC15One(39, 6) }
+
+// the extractor on errors that mix field clauses with either / botheq group clauses
+type vC15Grp struct {
+	A string `valid:"either=1"`
+	B string `valid:"either=1"`
+	C int    `valid:"botheq=2"`
+	D int    `valid:"botheq=2"`
+	E string `valid:"required|need E"`
+}
+
+func H_C15_extract_groups() {
+	o := &vC15Grp{A: vStr("A"), B: vStr("B"), C: vndInt("C"), D: vndInt("D"), E: vStr("E")}
+	only := vndChoice("only", 3) // 0: all groups, 1: either group alone, 2: botheq group alone
+	var err error
+	switch only {
+	case 0:
+		err = Struct(o)
+	case 1:
+		err = Struct(o, RM{"C": "ge=-9223372036854775808", "D": "ge=-9223372036854775808", "E": "le=9"})
+	case 2:
+		err = Struct(o, RM{"A": "le=9", "B": "le=9", "E": "le=9"})
+	}
+	var want []string
+	if only == 0 && o.E == "" {
+		want = append(want, "need E")
+	}
+	eith := only != 2 && o.A == "" && o.B == ""
+	both := only != 1 && o.C != o.D
+	if err == nil {
+		vAssert(len(want) == 0 && !eith && !both, "C15 extractor(groups): nil only when nothing is violated")
+		vReach("nil")
+		return
+	}
+	var got string
+	ok := vNoPanic(func() { got = GetOnlyExplainErr(err.Error()) })
+	vAssert(ok, "C15 extractor(groups): never fails")
+	if !ok {
+		return
+	}
+	e1, e2 := "they shouldn't all be empty", "they should be equal"
+	base := strings.Join(want, ErrEndFlag)
+	join := func(parts ...string) string {
+		out := base
+		for _, p := range parts {
+			if out != "" {
+				out += ErrEndFlag
+			}
+			out += p
+		}
+		return out
+	}
+	switch {
+	case eith && both: // group clauses come last, in either order
+		vAssert(got == join(e1, e2) || got == join(e2, e1), "C15 extractor(groups): explanation of every group clause")
+	case eith:
+		vAssert(got == join(e1), "C15 extractor(groups): explanation of the either clause")
+	case both:
+		vAssert(got == join(e2), "C15 extractor(groups): explanation of the botheq clause")
+	default:
+		vAssert(got == base, "C15 extractor(groups): field clauses only")
 	}
 	vReach("end")
 }
